@@ -41,6 +41,9 @@ def run(R):
     if "coqchk" in cov and prev["coqchk"] and prev["coqchk"] != cov["coqchk"]:
         cov["live_coqchk"] = cov["coqchk"]
         cov["coqchk"] = prev["coqchk"]
-    cov["live_examples"] = "n=4, one crashed: round 1 (23 deliveries, duplicates) and round 2 after a timeout " \
-                           "(32 deliveries): all three running processes decide (vm_compute, Qbft/GoodRoundEx.v)"
+    cov["live_examples"] = ("n=4, one crashed (vm_compute, Qbft/GoodRoundEx.v): round 1 (23 deliveries, duplicates); round 2 after "
+                            "a timeout, null round changes (32 deliveries); round 2 re-proposing a value prepared in round 1 with "
+                            "stale round-1 messages in the pool (46 shuffled deliveries, leader's own input differs): all three "
+                            "running processes decide, hypotheses of the theorems discharged; FIFOLimit=1 refutation of the "
+                            "statement without fifo_ok")
     return ok
